@@ -446,7 +446,7 @@ func (w *c06World) invariant(tokensBefore map[string]bool) (string, string) {
 }
 
 func TestVerif_C06_LeaseFaults(t *testing.T) {
-	rec := verifx.NewRecorder("C06", "lease-faults", "request shapes {leased secret (plain / odd path / batch child / child namespace / response-wrapped / use-limited token), login through a recording credential backend (plain / wrapped / periodic / use-limited), auth/token/create (plain / role / role with path suffix / create-orphan / wrapped), and a table of token shapes (root-policy child without ttl = never expiring, with and without parent, through create-orphan; root policy with ttl or explicit maximum; periodic; use-limited with explicit maximum; no default policy; created in a child namespace by its own token and by the root token) plus one token shape per case composed from the parameter space (creator, endpoint, policies, ttl, explicit maximum, period, uses, no_parent, no_default_policy, wrapping)}; a dry run lists the storage operations of the request - the operations that start inside the request's time window on the request goroutine or on a goroutine the request started (directly or transitively) - and names each by (kind, class of key, occurrence); on a fresh copy per operation that operation fails once: every write of the request, and the reads thinned to 16 (table shapes 8) in the quick tier; for every write once more under a storage latency spike: every Put of the request on a lease or token record is accepted but held until the request has returned or the request has started no other storage operation for 10 ms (at most 100 ms), and completes regardless of the request context; oracle when the request has returned and every operation it started has come back: a handed-out secret has lease + token index, a handed-out token is usable and leased; after an error no usable token lacks a lease - judged for every token record the request ADDED to the raw storage listing (entry, accessor index, parent index, all namespaces; never-expiring root tokens included), no lease record of a secret whose revocation the backend has seen, no index record naming a lease without record, no accessor/parent record without token entry, lease and index records mutually consistent, every generated secret revoked at the backend or covered by a lease; also crash after every prefix of the request's writes followed by restart; for the secret-generating shapes also 'the client goes away': the request context is cancelled when the k-th storage operation starts; non-trivial = the fault (or crash) fell after the first write of the request or after the backend had produced the secret/auth")
+	rec := verifx.NewRecorder("C06", "lease-faults", "request shapes {leased secret (plain / odd path / batch child / child namespace / response-wrapped / use-limited token), login through a recording credential backend (plain / wrapped / periodic / use-limited), auth/token/create (plain / role / role with path suffix / create-orphan / wrapped), and a table of token shapes (root-policy child without ttl = never expiring, with and without parent, through create-orphan; root policy with ttl or explicit maximum; periodic; use-limited with explicit maximum; no default policy; created in a child namespace by its own token and by the root token) plus one token shape per case composed from the parameter space (creator, endpoint, policies, ttl, explicit maximum, period, uses, no_parent, no_default_policy, wrapping)}; a dry run lists the storage operations of the request - the operations that start inside the request's time window on the request goroutine or on a goroutine the request started (directly or transitively) - and names each by (kind, class of key, occurrence); on a fresh copy per operation that operation fails once: every write of the request, and the reads thinned to 16 (table shapes 8) in the quick tier; for every write once more under a storage latency spike: every Put of the request on a lease or token record is accepted but held until the request has returned or the request has started no other storage operation for 5 ms (50 ms if the write was issued by a helper goroutine; at most 150 ms), and completes regardless of the request context; oracle when the request has returned and every operation it started has come back: a handed-out secret has lease + token index, a handed-out token is usable and leased; after an error no usable token lacks a lease - judged for every token record the request ADDED to the raw storage listing (entry, accessor index, parent index, all namespaces; never-expiring root tokens included), no lease record of a secret whose revocation the backend has seen, no index record naming a lease without record, no accessor/parent record without token entry, lease and index records mutually consistent, every generated secret revoked at the backend or covered by a lease; also crash after every prefix of the request's writes followed by restart; for the secret-generating shapes also 'the client goes away': the request context is cancelled when the k-th storage operation starts; non-trivial = the fault (or crash) fell after the first write of the request or after the backend had produced the secret/auth")
 	defer rec.Flush()
 	rapid.Check(t, func(rt *rapid.T) {
 		txn := rapid.Bool().Draw(rt, "transactionalStorage")
@@ -665,13 +665,12 @@ func c06RunKind(t *testing.T, rt *rapid.T, rec *verifx.Recorder, txn bool, kind 
 	}
 	targets := c06PickTargets(ops, verifx.Scale(maxOther, 1<<30), phase)
 	for _, tg := range targets {
-		if os.Getenv("C06_DEBUG_SPIKE_ONLY") == "" {
-			faultRun(tg, false)
-		}
-	}
-	for _, tg := range targets {
+		// the run under a latency spike first: what it finds does not depend on how the goroutines happen to be scheduled
 		if tg.Write || verifx.Thorough() {
 			faultRun(tg, true)
+		}
+		if os.Getenv("C06_DEBUG_SPIKE_ONLY") == "" {
+			faultRun(tg, false)
 		}
 	}
 
